@@ -162,9 +162,24 @@ fn render_ws(ws: &Ws) -> Vec<SrcFile> {
         let mut body = String::new();
         for t in ws.types.iter().filter(|t| t.file == fi) {
             let ren = t.renamed.as_ref().map(|r| format!("#[serde(rename = \"{r}\")]\n")).unwrap_or_default();
-            body.push_str(&format!("#[typeshare]\n{ren}pub struct {}{} {{\n    pub own: u32,\n", t.name, if t.generic { "<T>" } else { "" }));
+            // half of the generic types name their parameter like a type that another item of the same file takes from
+            // another crate (`struct Page<Item> { .. }` beside `use catalog::Item; struct Cart { first: Item }`): valid Rust,
+            // and the import is still needed by that other item
+            let shadow: Option<String> = if t.generic && t.stem.as_bytes()[1] % 2 == 0 {
+                ws.types
+                    .iter()
+                    .filter(|o| o.file == fi && o.name != t.name)
+                    .flat_map(|o| o.refs.iter())
+                    .filter(|(ti, form)| ws.types[*ti].krate != *c && form.starts_with("use-") && *form != "use-glob")
+                    .map(|(ti, _)| ws.types[*ti].name.clone())
+                    .find(|n| t.refs.iter().all(|(ti, _)| ws.types[*ti].name != *n))
+            } else {
+                None
+            };
+            let param = shadow.as_deref().unwrap_or("T");
+            body.push_str(&format!("#[typeshare]\n{ren}pub struct {}{} {{\n    pub own: u32,\n", t.name, if t.generic { format!("<{param}>") } else { String::new() }));
             if t.generic {
-                body.push_str("    pub payload: T,\n");
+                body.push_str(&format!("    pub payload: {param},\n"));
             }
             let mut spelled: Vec<String> = vec![];
             for (k, (ti, form)) in t.refs.iter().enumerate() {
@@ -461,7 +476,7 @@ pub fn run(ctx: &Ctx) -> (Spec, Report) {
             let Some(ParseStatus::Parsed(file)) = multi_facts.get(fname.as_str()).map(|f| &f.status) else { continue };
             for t in r.ws.types.iter().filter(|t| t.krate == c) {
                 let own = format!("{}{}", r.cfg.prefix, t.renamed.clone().unwrap_or(t.name.clone()));
-                let Some(def) = file.defs.iter().find(|d| d.name == own) else { continue };
+                let Some(def) = file.defs.iter().find(|d| d.name == own && d.kind != DefKind::Helper && !(d.fields.is_empty() && d.kind == DefKind::Alias)) else { continue };
                 let mut mentioned: Vec<&str> = vec![];
                 for f in &def.fields {
                     f.ty.names(&mut mentioned);
@@ -629,7 +644,7 @@ pub fn run(ctx: &Ctx) -> (Spec, Report) {
     }
     let spec = Spec {
         level: "exploration",
-        rule: format!("{n} generated workspaces of 1-5 crates (names drawn from 10, with dashes and underscores, half of them beginning with the name of a third-party crate typeshare ignores - time-utils, http_types, stdx, ring-buffer, synapse; a third of them with an extra `<first crate>.v2` directory, whose name differs from an existing crate only behind a dot), 1-3 files per crate at depth 1-4 under src, 1-3 types per file, references to earlier types in the same file, the same crate (crate:: / super:: / use self:: / use crate::) and other crates (use single / grouped / nested / glob, qualified and deep qualified paths), a fifth of the types generic and referred to with a type argument that is itself a reference in any of those forms (`other::Page<third::models::deep::Item>`), wrapped in nothing / Vec / Option / HashMap value / Box<[..; 2]> / HashMap key (not the last type argument), a sixth of the types serde-renamed, optional prefix and a foreign type mapping; real binary with --output-folder and, as twin, --output-file; TypeScript, Kotlin, Swift, Python (Scala and Go have no multi-file support); oracle: file set and names from the crate rule, every type in exactly its crate's file, union of definitions equals the single-file run, TS/Kotlin imports resolve to the defining file and name only defined types; plus one crate reached through 17 spellings of its path (from the workspace, from inside the crate, from inside src, through `..`, absolute, below an ancestor directory that is itself named src) whose output file must be named after the directory above src; distinct = (language, crate count, prefix?) and (language, reference form, renamed?)"),
+        rule: format!("{n} generated workspaces of 1-5 crates (names drawn from 10, with dashes and underscores, half of them beginning with the name of a third-party crate typeshare ignores - time-utils, http_types, stdx, ring-buffer, synapse; a third of them with an extra `<first crate>.v2` directory, whose name differs from an existing crate only behind a dot), 1-3 files per crate at depth 1-4 under src, 1-3 types per file, references to earlier types in the same file, the same crate (crate:: / super:: / use self:: / use crate::) and other crates (use single / grouped / nested / glob, qualified and deep qualified paths), a fifth of the types generic (half of those naming their parameter like a cross-crate type another item of the file imports) and referred to with a type argument that is itself a reference in any of those forms (`other::Page<third::models::deep::Item>`), wrapped in nothing / Vec / Option / HashMap value / Box<[..; 2]> / HashMap key (not the last type argument), a sixth of the types serde-renamed, optional prefix and a foreign type mapping; real binary with --output-folder and, as twin, --output-file; TypeScript, Kotlin, Swift, Python (Scala and Go have no multi-file support); oracle: file set and names from the crate rule, every type in exactly its crate's file, union of definitions equals the single-file run, TS/Kotlin imports resolve to the defining file and name only defined types; plus one crate reached through 17 spellings of its path (from the workspace, from inside the crate, from inside src, through `..`, absolute, below an ancestor directory that is itself named src) whose output file must be named after the directory above src; distinct = (language, crate count, prefix?) and (language, reference form, renamed?)"),
         assumptions: vec![
             "`use .. as ..` renames are outside the stated domain and not generated".into(),
             "extra imports (a glob brings in every type of the crate) are allowed as long as the module defines them".into(),
